@@ -102,13 +102,16 @@ def _krp_ref(c):
 reg(Fn('beltKRP', [('out', 'dest', lambda c: c['m'] if c['m'] <= 64 else 64), ('val', 'm'), ('in', 'src'), ('len', 'src'), ('in', 'level'), ('in', 'header')],
        _krp_ref, group='belt', secrets=('src',)))
 
-def _fmt_ok(c):
-    return 2 <= c['mod'] <= 65536 and 2 <= len(c['src']) <= 600 and len(c['key']) in (16, 24, 32) and all(x < c['mod'] for x in c['src'])
 def _fmt_ref(f):
     def ref(c):
-        if not _fmt_ok(c):
+        n = len(c['src'])
+        if not (2 <= c['mod'] <= 65536) or n < 2 or len(c['key']) not in (16, 24, 32):
             return {'ret': E['BAD_INPUT']}
-        return {'ret': 0, 'dest': f(c['key'], c['mod'], len(c['src']), c['iv'], c['src'])}
+        if n > 600:
+            return {'ret': 119}          # ERR_NOT_IMPLEMENTED (documented)
+        if any(x >= c['mod'] for x in c['src']):
+            return None                  # symbols outside the alphabet: precondition, no prediction
+        return {'ret': 0, 'dest': f(c['key'], c['mod'], n, c['iv'], c['src'])}
     return ref
 for nm, f in (('beltFMTEncr', R.fmt_encr), ('beltFMTDecr', R.fmt_decr)):
     reg(Fn(nm, [('u16out', 'dest', _n('src')), ('val', 'mod'), ('u16in', 'src'), ('len', 'src'), ('in', 'key'), ('len', 'key'), ('in', 'iv')],
